@@ -56,6 +56,7 @@ ImplAct(s, r) ==
                         THEN Idle(s, [k |-> "pending"]) ELSE Cmd(s.c)
     [] s.a = "reply" -> \E x \in pend[s.c] : x.id = s.id /\ Reply(s.c, x, s.ok, s.full)
     [] s.a = "inbound" -> Inbound(s.c, s.q, s.full)
+    [] s.a = "slot" -> \E x \in pend[s.c] : x.id = s.id /\ Slot(s.c, x)
     [] s.a = "deliver" -> IF Busy(s.c) /\ blk[s.c].q \notin deadq /\ PhysLen(blk[s.c].q) >= PCap THEN Idle(s, [k |-> "blocked"]) ELSE Deliver(s.c)
     [] s.a = "fclose" -> IF conns[s.q][s.p].pri = 0 THEN Idle(s, [k |-> "err"]) ELSE FClose(s.q, s.p)
     [] s.a = "expire" -> IF <<s.p, s.c>> \notin track[s.q] THEN Idle(s, [k |-> "untracked"]) ELSE Expire(s.q, s.p, s.c)
